@@ -1409,6 +1409,7 @@ func lemmaUpdateThenNew(s *bufferSlice) {
 //@   ghost var released int = 0
 //@   at call? (*bufferManager).recycleBuffer#0 ghost released := released + 1
 //@   at call? putBackBufferSlice#0 ghost released := released + 1
+//@   at call? putBackBufferSlice#0 check[C09] !a0.isFromShm      // a slice that goes straight back to the object pool is not a shared-memory slice (those go through recycleBuffer, whatever the buffer-level flag says)
 //@   exit[C09] released == old(l.sliceList.len) && l.sliceList.len == 0
 //@   loop 0 assume l.sliceList.len > 0 ==> l.sliceList.frontSlice != nil && (l.sliceList.len > 1 ==> l.sliceList.frontSlice.nextSlice != nil)
 //@   loop 0 invariant listOK(l.sliceList) && released + l.sliceList.len == old(l.sliceList.len) && l.sliceList == old(l.sliceList)
